@@ -24,6 +24,25 @@ for p in props:
         na.append({'property_id': pid, 'reason': 'check not built yet (construction in progress; see DESIGN.md section 5 for the planned Lean model and theorems)'})
         continue
     h = importlib.import_module('harness.' + low)
+    thms = re.findall(r'^\s*theorem\s+([A-Za-z0-9_.\']+)', open(ppath).read(), re.M)
+    thms = sorted(thms, key=lambda t: (t.startswith('table') or t.startswith('tables') or t.startswith('prefix') or t.startswith('orig') or '_table' in t, ))
+    partial = [t for t in thms if 'partial' in t]
+    streams = list(getattr(h, 'STREAMS', []))
+    default_text = ('Machine-checked proof in Lean 4: %d theorems in lean/TxdbusModel/Properties/%s.lean (%s%s) about an executable '
+                    'model of the anchored code, for all inputs / histories / schedules the property quantifies over. The model is tied to the '
+                    'current source on every run by tables regenerated from /repo (tools/tables) and by %d correspondence streams that run the '
+                    'compiled model driver and the real txdbus on the same generated cases (%s); a property oracle written from the statement is '
+                    'evaluated on the implementation alone for every case and yields the concrete failing input. A broken theorem, table or '
+                    'stream without a failing input is reported as no-failing-input-found.'
+                    % (len(thms), pid, ', '.join(thms[:6]) + (', ...' if len(thms) > 6 else ''),
+                       ('; partial: ' + ', '.join(partial)) if partial else '; none partial',
+                       len(streams), ', '.join(streams[:5]) + (', ...' if len(streams) > 5 else '')))
+    tb = list(getattr(h, 'TRUSTED_BASE', []))
+    asm = list(getattr(h, 'ASSUMPTIONS', []))
+    default_note = ('Trusted: Lean 4.33 kernel; axioms limited to propext, Classical.choice, Quot.sound (audited per run); the spec definitions '
+                    '(transcribed from the DBus specification / property text); the translators and the correspondence harness (differential testing: '
+                    'generators bound what it sees). Modelled, not verified: ' + ('; '.join(tb) if tb else 'CPython / Twisted runtime semantics mirrored by the model')
+                    + ('. Assumes: ' + '; '.join(asm) if asm else '') + '. Details: notes/%s.md.' % pid)
     checks.append({
         'property_id': pid,
         'quick_cmd': '/venv/bin/python check.py %s --tier quick' % pid,
@@ -33,10 +52,10 @@ for p in props:
         'engine': 'lean4-proof+correspondence',
         'level_claimed': {
             'category': 'proof',
-            'text': getattr(h, 'LEVEL_TEXT', 'Lean 4 theorems about an executable model of the code, tied to the source by regenerated tables and a correspondence check on every run'),
+            'text': getattr(h, 'LEVEL_TEXT', default_text),
             'design_ref': 'DESIGN.md section 5, ' + pid,
         },
-        'level_note': getattr(h, 'LEVEL_NOTE', 'Trusted: Lean kernel; axioms propext/Classical.choice/Quot.sound only; the hand-written model is tied to the code by differential testing (generators bound what it sees); Python/Twisted runtime semantics are mirrored, not verified.'),
+        'level_note': getattr(h, 'LEVEL_NOTE', default_note)[:3000],
         'technique': getattr(h, 'TECHNIQUE', 'Lean 4 machine-checked proof over a hand model + generated tables; correspondence (differential) check model vs real code; failing-input search on the real code'),
     })
 
